@@ -71,6 +71,9 @@ def subst_poly(p, decide, memo=None):
 
 
 def subst(v, decide, memo=None):
+  if avn.FIELD['on']:
+    # random-interpretation mode: the scenario oracle was applied when the atoms were created
+    return v
   memo = {} if memo is None else memo
   if isinstance(v, Rat):
     return Rat(subst_poly(v.n, decide, memo), subst_poly(v.d, decide, memo))
